@@ -273,7 +273,9 @@ func (p *Policy) sanitize(r io.Reader, w io.Writer) error {
 			if !ok {
 				aa, matched := p.matchRegex(token.Data)
 				if !matched {
-					if _, ok := p.setOfElementsToSkipContent[token.Data]; ok {
+					// void elements have no content to skip and no closing tag
+					// that would end the skipping
+					if _, ok := p.setOfElementsToSkipContent[token.Data]; ok && !voidElement(token.Data) {
 						skipElementContent = true
 						skippingElementsCount++
 					}
